@@ -116,7 +116,9 @@ def run(pid, vh_args, what, rule, assumptions, mc=(), extra_cov=None, vh_cmd="ma
     for i, args in enumerate(runs):
         d = os.path.join(wd, f"run{i}")
         os.makedirs(d, exist_ok=True)
-        core.run_vh(vh_cmd, d, shards=core.NCPU, extra=list(args))
+        # a run may name its own harness subcommand: ["cmd=nbwalk", ...]
+        cmd, args = (args[0][4:], args[1:]) if args and str(args[0]).startswith("cmd=") else (vh_cmd, args)
+        core.run_vh(cmd, d, shards=core.NCPU, extra=list(args))
         traces += sorted(glob.glob(os.path.join(d, "mac.*.ndjson")))
     res, sigs = validate(pid, traces, wd)
     report(rep, pid, res, sigs, what)
